@@ -155,34 +155,70 @@ Proof. intros a b es H. induction es as [|e es IH]; simpl; [reflexivity|]. rewri
 
 Definition osim {X Y : Type} (R : X -> X -> Prop) (x y : X + Y) : Prop :=
   match x, y with inl a, inl b => R a b | inr e, inr e' => e = e' | _, _ => False end.
+Definition fsimz (x y : frame * Z) : Prop := fsim (fst x) (fst y) /\ snd x = snd y.
+(* two nested-call callbacks that answer alike on frames that answer alike *)
+Definition cbsim (c1 c2 : callback) : Prop := forall m z a b, fsim a b -> osim fsimz (c1 m z a) (c2 m z b).
 
-Lemma exec_stmt_sim : forall a b s, fsim a b -> osim fsim (exec_stmt a s) (exec_stmt b s).
+Lemma exec_stmt_sim : forall c1 c2 a b s, cbsim c1 c2 -> fsim a b -> osim fsim (exec_stmt c1 a s) (exec_stmt c2 b s).
 Proof.
-  intros a b s H. pose proof H as [S A C O M]. destruct s as [f e|n e|tag es]; simpl.
-  - rewrite (eval_sim a b e H). destruct (eval b e) as [v|x]; simpl; [|reflexivity].
+  intros c1 c2 a b s CB H. pose proof H as [S A C O M]. destruct s as [f e|n e|tag es|tag m e]; simpl.
+  - rewrite (eval_sim a b e H), O. destruct (eval b e) as [v|x]; simpl; [|reflexivity].
     rewrite S. destruct (f_self b) as [fs|]; simpl; [|reflexivity].
     destruct (alookup f fs); simpl; [|reflexivity]. destruct (int_ok v); simpl; [|reflexivity].
     constructor; simpl; auto.
-  - rewrite (eval_sim a b e H). destruct (eval b e) as [v|x]; simpl; [|reflexivity].
+  - rewrite (eval_sim a b e H), O. destruct (eval b e) as [v|x]; simpl; [|reflexivity].
     rewrite C. destruct (static_name (f_ctx b) n) as [k|]; simpl; [|reflexivity].
     rewrite M. destruct (alookup k (f_statics b)); simpl; [|reflexivity]. destruct (int_ok v); simpl; [|reflexivity].
     constructor; simpl; auto. apply eqmap_aset; assumption.
-  - rewrite (eval_list_sim a b es H). destruct (eval_list b es); simpl; [|reflexivity].
-    constructor; simpl; auto. rewrite O. reflexivity.
+  - rewrite (eval_list_sim a b es H), O. destruct (eval_list b es); simpl; [|reflexivity].
+    constructor; simpl; auto.
+  - rewrite (eval_sim a b e H), O. destruct (eval b e) as [v|x]; simpl; [|reflexivity].
+    pose proof (CB m v a b H) as E.
+    destruct (c1 m v a) as [[a1 za]|xa]; destruct (c2 m v b) as [[b1 zb]|xb]; simpl in E; try contradiction; [|assumption].
+    destruct E as [[S1 A1 C1 O1 M1] E2]. simpl in *. subst zb. constructor; simpl; auto. rewrite O1. reflexivity.
 Qed.
-Lemma exec_body_sim : forall body a b, fsim a b -> osim fsim (exec_body a body) (exec_body b body).
+Lemma exec_body_sim : forall c1 c2 body a b, cbsim c1 c2 -> fsim a b -> osim fsim (exec_body c1 a body) (exec_body c2 b body).
 Proof.
-  induction body as [|s body IH]; simpl; intros a b H; [assumption|].
-  pose proof (exec_stmt_sim a b s H) as E.
-  destruct (exec_stmt a s) as [a1|x]; destruct (exec_stmt b s) as [b1|y]; simpl in E; try contradiction.
+  intros c1 c2. induction body as [|s body IH]; simpl; intros a b CB H; [assumption|].
+  pose proof (exec_stmt_sim c1 c2 a b s CB H) as E.
+  destruct (exec_stmt c1 a s) as [a1|x]; destruct (exec_stmt c2 b s) as [b1|y]; simpl in E; try contradiction.
   - apply IH; assumption.
-  - simpl. subst. rewrite (fs_out _ _ H). reflexivity.
+  - simpl. assumption.
 Qed.
-Lemma eval_ret_sim : forall a b e, fsim a b -> eval_ret a e = eval_ret b e.
-Proof. intros a b e H. unfold eval_ret. rewrite (fs_self _ _ H), (eval_sim a b e H). reflexivity. Qed.
+
+Lemma run_method_sim : forall c1 c2 fe self arg sa sb out, cbsim c1 c2 -> eqmap sa sb ->
+  osim fsimz (run_method c1 fe self arg sa out) (run_method c2 fe self arg sb out).
+Proof.
+  intros c1 c2 fe self arg sa sb out CB M. unfold run_method.
+  set (fa := {| f_self := self; f_arg := arg; f_statics := sa; f_ctx := Some (fe_iface fe, fe_type fe); f_out := out |}).
+  set (fb := {| f_self := self; f_arg := arg; f_statics := sb; f_ctx := Some (fe_iface fe, fe_type fe); f_out := out |}).
+  assert (fsim fa fb) as FS by (constructor; simpl; auto).
+  pose proof (exec_body_sim c1 c2 (m_body (fe_meth fe)) fa fb CB FS) as E.
+  destruct (exec_body c1 fa (m_body (fe_meth fe))) as [fa'|xa]; destruct (exec_body c2 fb (m_body (fe_meth fe))) as [fb'|xb]; simpl in E; try contradiction.
+  - rewrite (eval_sim fa' fb' _ E). destruct (eval fb' (m_ret (fe_meth fe))) as [z|x]; simpl.
+    + split; [assumption|reflexivity].
+    + rewrite (fs_out _ _ E). reflexivity.
+  - assumption.
+Qed.
+
+Lemma no_nested_sim : cbsim no_nested no_nested.
+Proof. intros m z a b H. simpl. rewrite (fs_out _ _ H). reflexivity. Qed.
+
+Definition funcs_alike (f1 f2 : list (string * fentry)) : Prop :=
+  forall t n, alookup (method_key t n) f1 = alookup (method_key t n) f2.
+Lemma nested_self_sim : forall f1 f2 t, funcs_alike f1 f2 -> cbsim (nested_self f1 t) (nested_self f2 t).
+Proof.
+  intros f1 f2 t FA m z a b H. pose proof H as [S A C O M]. unfold nested_self. rewrite FA.
+  destruct (alookup (method_key t m) f2) as [fe|]; simpl; [|rewrite O; reflexivity].
+  rewrite S, O.
+  pose proof (run_method_sim no_nested no_nested fe (f_self b) z (f_statics a) (f_statics b) (f_out b) no_nested_sim M) as E.
+  destruct (run_method no_nested fe (f_self b) z (f_statics a) (f_out b)) as [[a1 za]|xa];
+    destruct (run_method no_nested fe (f_self b) z (f_statics b) (f_out b)) as [[b1 zb]|xb]; simpl in E; try contradiction; [|assumption].
+  destruct E as [[S1 A1 C1 O1 M1] E2]. simpl in *. subst zb. split; [|reflexivity]. constructor; simpl; auto.
+Qed.
 
 Record ssim (a b : state) : Prop := {
-  ss_funcs : forall t n, alookup (method_key t n) (s_funcs a) = alookup (method_key t n) (s_funcs b);
+  ss_funcs : funcs_alike (s_funcs a) (s_funcs b);
   ss_impls : forall i t, impl_exists (s_impls a) i t = impl_exists (s_impls b) i t;
   ss_st : eqmap (s_statics a) (s_statics b);
   ss_vars : s_vars a = s_vars b; ss_ctx : s_ctx a = s_ctx b; ss_out : s_out a = s_out b }.
@@ -191,30 +227,23 @@ Definition rsim {X : Type} (R : X -> X -> Prop) (x y : res X) : Prop :=
   match x, y with Ok a, Ok b => R a b | Fail o e, Fail o' e' => o = o' /\ e = e' | _, _ => False end.
 Definition ssimz (x y : state * Z) : Prop := ssim (fst x) (fst y) /\ snd x = snd y.
 
-Lemma invoke_sim : forall a b l v self enter m arg, ssim a b ->
-  rsim ssimz (invoke a l v self enter m arg) (invoke b l v self enter m arg).
+Lemma invoke_sim : forall a b l v t self fe arg, ssim a b ->
+  rsim ssimz (invoke a l v t self fe arg) (invoke b l v t self fe arg).
 Proof.
-  intros a b l v self enter m arg H. pose proof H as [F I S V C O]. unfold invoke.
-  set (fa := {| f_self := self; f_arg := arg; f_statics := s_statics a;
-                f_ctx := match enter with Some c => Some c | None => s_ctx a end; f_out := s_out a |}).
-  set (fb := {| f_self := self; f_arg := arg; f_statics := s_statics b;
-                f_ctx := match enter with Some c => Some c | None => s_ctx b end; f_out := s_out b |}).
-  assert (fsim fa fb) as FS by (constructor; simpl; auto; rewrite C; reflexivity).
-  pose proof (exec_body_sim (m_body m) fa fb FS) as E.
-  destruct (exec_body fa (m_body m)) as [fa'|[oa xa]]; destruct (exec_body fb (m_body m)) as [fb'|[ob xb]]; simpl in E; try contradiction.
-  - rewrite (eval_ret_sim fa' fb' (m_ret m) E). destruct (eval_ret fb' (m_ret m)) as [z|x]; simpl.
-    + split; [|reflexivity]. simpl. destruct E as [S' A' C' O' M']. constructor; simpl; auto.
-      * rewrite V, S'. reflexivity.
-      * rewrite C. reflexivity.
-    + split; [apply (fs_out _ _ E)|reflexivity].
+  intros a b l v t self fe arg H. pose proof H as [F I S V C O]. unfold invoke. rewrite O.
+  pose proof (run_method_sim _ _ fe self arg (s_statics a) (s_statics b) (s_out b) (nested_self_sim _ _ t F) S) as E.
+  destruct (run_method (nested_self (s_funcs a) t) fe self arg (s_statics a) (s_out b)) as [[fa' za]|[oa xa]];
+    destruct (run_method (nested_self (s_funcs b) t) fe self arg (s_statics b) (s_out b)) as [[fb' zb]|[ob xb]]; simpl in E; try contradiction.
+  - destruct E as [[S' A' C' O' M'] E2]. simpl in *. subst zb. split; [|reflexivity]. constructor; simpl; auto.
+    rewrite V, S'. reflexivity.
   - inversion E; subst. split; reflexivity.
 Qed.
 
 Lemma call_sim : forall a b rc m arg, ssim a b -> rsim ssimz (call a rc m arg) (call b rc m arg).
 Proof.
   intros a b rc m arg H. pose proof H as [F I S V C O]. unfold call. rewrite V.
-  destruct (receiver (s_vars b) rc) as [[[[[l v] t] self] enter]|]; simpl; [|auto].
-  rewrite F. destruct (alookup (method_key t m) (s_funcs b)) as [meth|]; simpl; [|auto].
+  destruct (receiver (s_vars b) rc) as [[[[l v] t] self]|]; simpl; [|auto].
+  rewrite F. destruct (alookup (method_key t m) (s_funcs b)) as [fe|]; simpl; [|auto].
   apply invoke_sim; assumption.
 Qed.
 
@@ -306,7 +335,7 @@ Proof.
   destruct (register_all_impls _ _ W R) as [I S]. destruct (register_all_impls _ _ W' R') as [I' S'].
   assert (ssim (init_state r' (p_vars p)) (init_state r (p_vars p))) as SS.
   { constructor; simpl; auto.
-    - intros. eapply dispatch_order_independent_l; eauto.
+    - intros t n. eapply dispatch_order_independent_l; eauto.
     - intros. rewrite I, I'. symmetry. apply impl_exists_perm; assumption.
     - rewrite S, S'. apply eqmap_sym. apply (all_statics_perm _ _ P W ND). apply eqmap_refl. }
   pose proof (run_ops_sim (p_helpers p) (p_ops p) _ _ SS) as E.
